@@ -1,6 +1,7 @@
 package main
 
 import (
+	"encoding/json"
 	"fmt"
 	"io"
 	"net"
@@ -17,6 +18,9 @@ import (
 // is generous (20 s against a cycle of 50 ms); only "never delivered although the server is alive and healthy" is
 // a violation.
 func runC11proc(c *runCtx) {
+	if c.shard == 1 || (c.nshards == 1 && c.shard == 0) {
+		runRedeliver(c, false)
+	}
 	if c.shard != 0 {
 		return
 	}
@@ -161,4 +165,102 @@ func runC11proc(c *runCtx) {
 	if len(c.rep.Samples) < 2 {
 		c.rep.Sample(map[string]any{"family": "c11proc", "receiver_down_for": "1.5s, 4s", "http_timeout": "300ms"})
 	}
+}
+
+// runRedeliver (process tier of C06 and C11): a task was handed to a healthy http receiver (so it is recorded as
+// enqueued) but nobody claims it; with kill=true the server is killed right after the hand-off and restarted on the
+// same database. Once the enqueue lease (--system-task-enqueue-delay 1s) has run out, the task goes back to init
+// with the next counter and is handed off again: "no enqueued task remains past its lease", "background processing
+// resumes from the stored state". Only "never within 25 s although the server is alive and healthy" is a violation.
+func runRedeliver(c *runCtx, kill bool) {
+	name := "redeliver"
+	if kill {
+		name = "redeliver-kill"
+	}
+	srv := NewServer(filepath.Join(c.scratch, name), "--system-task-enqueue-delay", "1s")
+	srv.FreshDB()
+	if err := srv.Start(); err != nil {
+		fmt.Println("CHECK-BROKEN cannot start the server:", err)
+		panic(err)
+	}
+	defer srv.Close()
+	var mu sync.Mutex
+	counters := map[int]bool{}
+	id := fmt.Sprintf("c11.redeliver.%d", c.seed)
+	ln, err := net.Listen("tcp", "127.0.0.1:0")
+	if err != nil {
+		c.rep.Inconclusive++
+		return
+	}
+	hs := &nethttp.Server{Handler: nethttp.HandlerFunc(func(w nethttp.ResponseWriter, r *nethttp.Request) {
+		b, _ := io.ReadAll(r.Body)
+		var m struct {
+			Task struct {
+				Id      string `json:"id"`
+				Counter int    `json:"counter"`
+			} `json:"task"`
+		}
+		if json.Unmarshal(b, &m) == nil && m.Task.Id == "__invoke:"+id {
+			mu.Lock()
+			counters[m.Task.Counter] = true
+			mu.Unlock()
+		}
+		w.WriteHeader(200)
+	})}
+	go func() { _ = hs.Serve(ln) }()
+	defer hs.Close()
+	rp := srv.JSON("POST", "/promises", nil, map[string]any{"id": id, "timeout": time.Now().UnixMilli() + 3600_000, "tags": map[string]string{"resonate:invoke": "http://" + ln.Addr().String() + "/recv"}})
+	if rp.Err != nil || rp.Status != 201 {
+		c.rep.Inconclusive++
+		return
+	}
+	has := func(n int) bool { mu.Lock(); defer mu.Unlock(); return counters[n] }
+	for t := 0; t < 200 && !has(1); t++ {
+		time.Sleep(50 * time.Millisecond)
+	}
+	if !has(1) {
+		c.rep.Inconclusive++ // the first hand-off is the business of other checks
+		return
+	}
+	if kill {
+		time.Sleep(150 * time.Millisecond) // let the kernel record the hand-off (either way the task must come again)
+		srv.Kill()
+		if err := srv.Start(); err != nil {
+			c.rep.Inconclusive++
+			return
+		}
+	}
+	start := time.Now()
+	again := func() bool {
+		mu.Lock()
+		defer mu.Unlock()
+		for n := range counters {
+			if n > 1 {
+				return true
+			}
+		}
+		return false
+	}
+	for time.Since(start) < 25*time.Second && !again() {
+		time.Sleep(100 * time.Millisecond)
+	}
+	c.rep.Events++
+	c.rep.Evaluations++
+	c.rep.Nontriv("c11proc-" + name)
+	if again() {
+		c.rep.Hit("c11proc." + name + ".redelivered")
+		c.rep.HitN("c11proc."+name+".ms-until-redelivery", int(time.Since(start).Milliseconds()))
+		return
+	}
+	if ok, why := srv.Healthy(); !ok {
+		c.violate("converge:server-unhealthy", "after an unclaimed hand-off the server is not healthy: "+why, nil)
+		return
+	}
+	what := "stays enqueued"
+	if snap, err := srv.Snapshot(); err == nil {
+		if t := snap.T["__invoke:"+id]; t != nil {
+			what = fmt.Sprintf("is stored as %s", t)
+		}
+	}
+	c.violate("converge:enqueued-task-never-reclaimed:"+name, fmt.Sprintf("task __invoke:%s was handed to its receiver with counter 1 and never claimed; enqueue delay 1 s; 25 s later it has not been handed off again and %s (server alive and healthy, killed and restarted in between: %v)", id, what, kill), nil)
 }
